@@ -23,8 +23,17 @@ def main():
     res = Result(a.pid, tier, seed)
     if a.replay:
         rp = json.load(open(a.replay))
+        print(f"# replaying: {rp.get('what')}")
         rc = mod.replay(res, rp)
-        sys.exit(rc)
+        if getattr(mod, "REPLAY_IS_EXACT", False):
+            sys.exit(rc)
+        # generators are deterministic in (property, tier, seed): re-run the check as it ran when the file was written
+        import re as _re
+        m = _re.search(r"_(quick|thorough)_(\d+)_\d+\.json$", a.replay)
+        tier = rp.get("tier") or (m.group(1) if m else tier)
+        seed = int(rp.get("seed") if rp.get("seed") is not None else (m.group(2) if m else seed))
+        print(f"# re-running ./check {a.pid} --tier {tier} with VERIF_SEED={seed}")
+        res = Result(a.pid, tier, seed)
     broken = None
     hits = common.scan_forbidden()
     if hits:
